@@ -299,6 +299,17 @@ func Exit() {
 	if s == nil {
 		return
 	}
+	// Exit is the deferred call itself, so it can recover: a panic of the code under test on a goroutine the library
+	// spawned is a finding of that schedule (as on a harness thread), not the death of the worker process
+	if r := recover(); r != nil {
+		name := "library-goroutine"
+		if th := s.me(); th != nil {
+			name = th.name
+		}
+		s.mu.Lock()
+		s.Panics = append(s.Panics, fmt.Sprintf("PANIC-ON-%s(%v)", name, r))
+		s.mu.Unlock()
+	}
 	if th := s.me(); th != nil {
 		s.mu.Lock()
 		th.done = true
